@@ -526,16 +526,16 @@ let () =
         (* C09: a snapshot, add_vars(k), a snapshot: replay add_vars on the extracted model *)
         (* C08: a snapshot, level_down(i), a snapshot: replay the swap on the extracted level_swap (BDD, MTBDD) *)
         (match !since, !prev_ps with
-         | [ ld ], Some pp when (kname = "bdd" || kname = "mtbdd") && List.mem "C08" !props && starts_with ld "LEVELDOWN " ->
+         | [ ld ], Some pp when (kname = "bdd" || kname = "mtbdd" || kname = "bcdd") && List.mem "C08" !props && starts_with ld "LEVELDOWN " ->
            check "C08";
-           (match Lswap.check pp ps (int_of_string (String.sub ld 10 (String.length ld - 10))) with
+           (match Lswap.check ~kname pp ps (int_of_string (String.sub ld 10 (String.length ld - 10))) with
             | Ok () -> ()
             | Error (kind, m) -> fail step "C08" kind m)
          (* a snapshot, set_var_order(_seq), a snapshot: replay on the extracted set_var_order_model; the
             concurrent variant (several workers and >= 65536 nodes) performs the swaps in no fixed order *)
-         | [ od ], Some pp when (kname = "bdd" || kname = "mtbdd") && List.mem "C08" !props && starts_with od "ORDER "
+         | [ od ], Some pp when (kname = "bdd" || kname = "mtbdd" || kname = "bcdd") && List.mem "C08" !props && starts_with od "ORDER "
                                 && (pp.inner < 65536 || param_int c "threads" 1 = 1) ->
-           (match Lswap.check_order pp ps (List.map int_of_string (List.tl (split_ws od))) with
+           (match Lswap.check_order ~kname pp ps (List.map int_of_string (List.tl (split_ws od))) with
             | None -> ()
             | Some (Ok ()) -> check "C08"
             | Some (Error (kind, m)) -> check "C08"; fail step "C08" kind m)
